@@ -17,7 +17,7 @@ use crate::proto::{Case, Sink, b, enc};
 use crate::rng::Rng;
 
 fn gm(pat: &str, s: &str) -> bool {
-    globset::Glob::new(pat).map(|g| g.compile_matcher().is_match(s)).unwrap_or(false)
+    crate::globfact::is_match(pat, s)
 }
 fn any_glob(pats: &[String], s: &str) -> bool {
     pats.iter().any(|p| gm(p, s))
@@ -416,5 +416,6 @@ pub fn run(tier: Tier, seed: u64, out: &str) {
         emit_tree(&mut sink, &mut r, &scratch);
     }
     sink.extra.insert("trivial_tag_prefixes".into(), serde_json::json!(["file/clean", "dir/clean"]));
+    crate::globfact::flush(&mut sink);
     sink.finish(out);
 }
